@@ -30,8 +30,20 @@ func drawPathDoc(rt *rapid.T, o gen.PathOpts, style bool) *Case {
 	return &Case{Path: r.Text, AST: p, Texts: r.Steps, Doc: d, DocKind: g.DocKind, UseNumber: rapid.Bool().Draw(rt, "usenumber"), Funcs: o.Funcs}
 }
 
+// poisonPaths are rejected by Parse at different grammar actions, several of them after nodes
+// and filter operands have already been built. Parsing one right before the case's own path
+// checks "regardless of what was parsed before" inside the single-call properties as well.
+var poisonPaths = []string{
+	"$[0].b.x[?(@.a.unknown())]", "$.a[?(@.b =~ /(/ && @.c)]", "$.a[?(@.b == @.c)]", "$.a.b[?(@.* == 1)]", "$.a[?(@.b == 1e400)]",
+	"$.a[0:99999999999999999999]", "$.a['b',", "$[?(@.a[?(@.b == 1) x])]", "$.a.f1().zz()", "$.a[(1)]", "$.a.b[0] x", "[?(@.a == 1 && )]",
+}
+
 func drawC01(rt *rapid.T) *Case {
-	return drawPathDoc(rt, gen.PathOpts{Funcs: true, RootOmit: true, FuncPct: 22}, true)
+	c := drawPathDoc(rt, gen.PathOpts{Funcs: true, RootOmit: true, FuncPct: 22}, true)
+	if gen.Uniform(rt, "poison", 6) == 0 {
+		c.Strs = []string{poisonPaths[gen.Uniform(rt, "poisonpath", len(poisonPaths))]}
+	}
+	return c
 }
 
 // retrieveResult is one library evaluation.
@@ -45,6 +57,7 @@ type retrieveResult struct {
 func evalLibrary(c *Case, doc interface{}, accessor bool) retrieveResult {
 	rec := &Recorder{}
 	cfg := BuildConfig(rec, c.Funcs, accessor)
+	noteParse(c.Path, c.Funcs, accessor)
 	f, err := jsonpath.Parse(c.Path, cfg)
 	if err != nil {
 		return retrieveResult{parseErr: err, rec: rec}
@@ -87,6 +100,12 @@ func checkC01(c *Case, st *Stats) string {
 	specDoc := c.Document()
 	docText := c.Doc.JSON()
 	Journal(c.Check, c.Path, docText, flagString(c))
+	if len(c.Strs) > 0 {
+		// a rejected Parse right before: must leave nothing behind
+		noteParse(c.Strs[0], true, false)
+		_, _ = jsonpath.Parse(c.Strs[0], BuildConfig(nil, true, false))
+		st.Class("preceded-by-rejected-parse")
+	}
 	lib := evalLibrary(c, doc, false)
 	st.Eval(1)
 	if lib.parseErr != nil {
